@@ -446,7 +446,8 @@ def controls(file_bytes, is_stream):
 # evaluation
 # ------------------------------------------------------------------------------------------
 def expected_files(impl_sx):
-    """[(file bytes, version atom, {num: (idgen sx, obj sx)}, trailer sx)] per produced file"""
+    """[(file bytes, version atom, {num: (idgen sx, obj sx)}, trailer sx, sinks)] per produced file; sinks = the (sinks ..)
+    term of the harness: the same save repeated into sinks that accept fewer bytes than offered"""
     res = []
     objs = {}
     version = None
@@ -460,8 +461,20 @@ def expected_files(impl_sx):
             if dropped(io[1]):
                 continue
             objs[int(io[0][0])] = (io[0], io[1])
-        res.append((file_hex, version, dict(objs), trailer_after))
+        res.append((file_hex, version, dict(objs), trailer_after, rev[4][1:] if len(rev) > 4 else []))
     return res
+
+
+ATOM_RE = re.compile(r'\((?:rev|sinkdiff \S+) (x[0-9a-f]*)[ )]')
+
+
+def case_atoms(res):
+    """every file of a harness answer in text order: per revision the file a Vec received, then the outputs of the short
+    sinks that DIFFER from it (identical ones are the same bytes: the deterministic reader is not run twice on them)"""
+    return ATOM_RE.findall(res) if res.startswith('(saved ') else []
+
+
+SINK_STATS = {'compared': 0, 'differing': 0, 'errors': 0}
 
 
 def judge(case_tags, impl_line, strict_lines_for):
@@ -486,34 +499,51 @@ def judge_in_domain(case_tags, impl_line, strict_lines_for):
         return 'skip', 0, []
     sx = sx_parse(res)
     files = expected_files(sx)
-    outs = strict_lines_for([f[0] for f in files])
+    flat = []
+    for f in files:
+        flat.append(f[0])
+        flat += [t[2] for t in f[4] if t[0] == 'sinkdiff']
+    outs = strict_lines_for(flat)
+    nread = len(flat)
     prev = None
-    for k, ((fhex, version, objs, trailer), so) in enumerate(zip(files, outs)):
-        if prev is not None and not fhex[1:].startswith(prev[1:]):
-            return 'FAIL revision %d does not start with the previous file verbatim' % k, len(files), outs
+    cur = 0
+    for k, (fhex, version, objs, trailer, sinks) in enumerate(files):
+        # the file a Vec received, then every short-sink output that differs from it: each is judged as THE file of this save
+        variants = [('', fhex)] + [(' (delivered to the %s sink)' % t[1], t[2]) for t in sinks if t[0] == 'sinkdiff']
+        for via, vhex in variants:
+            so = outs[cur]
+            cur += 1
+            if prev is not None and not vhex[1:].startswith(prev[1:]):
+                return 'FAIL revision %d%s does not start with the previous file verbatim' % (k, via), nread, outs
+            try:
+                got = sx_parse(so)
+            except ValueError:
+                return 'FAIL strict reader output unreadable: ' + so[:100], nread, outs
+            if got[0] != 'ok':
+                return 'FAIL strict reader rejects file %d%s of the case: %s' % (k, via, so[:160]), nread, outs
+            if got[1] != version:
+                return 'FAIL file %d%s: header version %s, document version %s' % (k, via, got[1], version), nread, outs
+            gobjs = {int(io[0][0]): io for io in got[2][1:]}
+            for num in sorted(set(objs) | set(gobjs)):
+                if num not in gobjs:
+                    return 'FAIL file %d%s: object %d was saved but the strict reader does not find it' % (k, via, num), nread, outs
+                if num not in objs:
+                    return 'FAIL file %d%s: strict reader finds object %d that was not saved' % (k, via, num), nread, outs
+                if gobjs[num][0] != objs[num][0] or not same_obj(objs[num][1], gobjs[num][1]):
+                    return 'FAIL file %d%s: object %d differs: saved %s, file holds %s' % (
+                        k, via, num, sx_print(objs[num][1])[:200], sx_print(gobjs[num][1])[:200]), nread, outs
+            if not same_obj(trailer, got[3]):
+                return 'FAIL file %d%s: trailer differs: document %s, file %s' % (k, via, sx_print(trailer)[:200], sx_print(got[3])[:200]), nread, outs
+            if int(got[4]) != k + 1:
+                return 'FAIL file %d%s: %s revisions found, %d expected' % (k, via, got[4], k + 1), nread, outs
         prev = fhex
-        try:
-            got = sx_parse(so)
-        except ValueError:
-            return 'FAIL strict reader output unreadable: ' + so[:100], len(files), outs
-        if got[0] != 'ok':
-            return 'FAIL strict reader rejects file %d of the case: %s' % (k, so[:160]), len(files), outs
-        if got[1] != version:
-            return 'FAIL file %d: header version %s, document version %s' % (k, got[1], version), len(files), outs
-        gobjs = {int(io[0][0]): io for io in got[2][1:]}
-        for num in sorted(set(objs) | set(gobjs)):
-            if num not in gobjs:
-                return 'FAIL file %d: object %d was saved but the strict reader does not find it' % (k, num), len(files), outs
-            if num not in objs:
-                return 'FAIL file %d: strict reader finds object %d that was not saved' % (k, num), len(files), outs
-            if gobjs[num][0] != objs[num][0] or not same_obj(objs[num][1], gobjs[num][1]):
-                return 'FAIL file %d: object %d differs: saved %s, file holds %s' % (
-                    k, num, sx_print(objs[num][1])[:200], sx_print(gobjs[num][1])[:200]), len(files), outs
-        if not same_obj(trailer, got[3]):
-            return 'FAIL file %d: trailer differs: document %s, file %s' % (k, sx_print(trailer)[:200], sx_print(got[3])[:200]), len(files), outs
-        if int(got[4]) != k + 1:
-            return 'FAIL file %d: %s revisions found, %d expected' % (k, got[4], k + 1), len(files), outs
-    return 'ok', len(files), outs
+        # a healthy sink that accepts fewer bytes than offered receives the bytes a Vec receives, and save_to reports no error
+        for t in sinks:
+            if t[0] == 'sinkerr':
+                return 'FAIL file %d: save_to into the %s sink (short writes only, never a failure) answered error %s' % (k, t[1], t[2]), nread, outs
+            if t[0] == 'sinkdiff':
+                return 'FAIL file %d: the bytes delivered to the %s sink differ from the bytes delivered to a Vec' % (k, t[1]), nread, outs
+    return 'ok', nread, outs
 
 
 SPEC = {
@@ -567,6 +597,7 @@ def run(ctx):
     lines = [c[0] for c in cases]
     impl_raw = vlib.run_lines(impl, lines, timeout=900, shards=8)
     failures, control_failures = [], []
+    SINK_STATS.update(compared=0, differing=0, errors=0)
     kinds = {}
     distinct = set()
     n_files = 0
@@ -582,7 +613,12 @@ def run(ctx):
         parsed = []
         for i, raw in enumerate(impl_raw):
             res, v = vlib.split_impl(raw)
-            atoms = re.findall(r'\(rev (x[0-9a-f]*) ', res) if res.startswith('(saved ') else []
+            atoms = case_atoms(res)
+            if res.startswith('(saved '):
+                nd, ne = res.count('(sinkdiff '), res.count('(sinkerr ')
+                SINK_STATS['compared'] += res.count('(same ') + nd + ne
+                SINK_STATS['differing'] += nd
+                SINK_STATS['errors'] += ne
             index.append((len(file_atoms), len(atoms)))
             file_atoms += atoms
         strict_all = vlib.run_lines(runner, [file_line(a) for a in file_atoms], timeout=1800, shards=16)
@@ -661,6 +697,11 @@ def run(ctx):
     cov['negative_control_kinds'] = control_kinds
     cov['negative_control_rules'] = control_rules
     cov['direct_failures'] = len(failures)
+    cov['short_sink_saves'] = dict(SINK_STATS)
+    ctx.notes.append('every save (plain and incremental) repeated into 5 sinks that accept fewer bytes than offered (7 bytes per call, 1 byte per '
+                     'call, Interrupted on every 4th call, pipe-like 64-byte buffer, ragged counts + Interrupted): %(compared)d sink saves compared '
+                     'byte for byte with the Vec output, %(differing)d differing (each differing output is read by the strict reader as well), '
+                     '%(errors)d answered an error' % SINK_STATS)
     cov['notes'] = ctx.notes
     cov['partial'] = PARTIAL_NOTE
     step = max(1, n // 3)
@@ -681,7 +722,7 @@ def replay(ctx, payload):
     impl, log = vlib.build_harness(SPEC['bin'])
     runner, _ = vlib.build_runner(SPEC['runner'])
     raw = vlib.run_lines(impl, [case])[0]
-    v, nf, outs = judge(payload.get('tags', {}), raw, lambda atoms: vlib.run_lines(runner, [file_line(a) for a in atoms]))
+    v, nf, outs = judge(payload.get('tags', {}), raw, lambda atoms: vlib.run_lines(runner, [file_line(a) for a in atoms]) if atoms else [])
     print('impl   :', raw[:3000])
     for o in outs:
         print('strict :', o[:2000])
